@@ -15,7 +15,7 @@ TEMPLATES = ["mr|cat", "cat|mr", "cai|cac", "cac|cai", "numarr|cat", "mr", "numa
              "cat|datetime", "datetime|cat", "datetime", "cat|mr|cat", "mr|mr", "mrd|cat",
              "cat|mrd", "mrd"]
 SLOTS = ["hide", "rename", "explicit", "fixed_top", "fixed_bottom", "opposing",
-         "derived_insertion"]
+         "derived_insertion", "fixed_opposing", "fixed_marginal"]
 STALE = ["no_such_alias", 977, "977", -3, "-3", None, float("nan"), 10 ** 9]
 RULE = (
     "For every array-type dimension of %d templates (MR, MR with derived items, CA items, "
@@ -42,7 +42,8 @@ REQUIRED_REACH = ["spelling_equivalence", "stale_ignored", "reuse", "mixed_spell
                   "class:mixed=alias+subvar_id", "class:mixed=alias+elem_id_int",
                   "class:mixed=elem_id_str+alias", "class:alias_is_another_items_subvar_id", "class:slot=hide",
                   "class:slot=rename", "class:slot=explicit", "class:slot=fixed_top",
-                  "class:slot=opposing", "class:slot=derived_insertion", "class:kind=mr",
+                  "class:slot=opposing", "class:slot=derived_insertion", "class:slot=fixed_opposing",
+                  "class:slot=fixed_marginal", "class:kind=mr",
                   "class:kind=ca_items", "class:kind=numarr", "class:kind=datetime",
                   "class:spelling=subvar_id", "class:spelling=elem_id_int",
                   "class:spelling=elem_id_str", "class:spelling=position"]
@@ -168,6 +169,14 @@ def _transform_for(slot, key, okey, ref, all_alias_refs, opp_measure="count_weig
                                 "fixed": {"top": [ref]}}}}
     if slot == "fixed_bottom":
         return {key: {"order": {"type": "label", "fixed": {"bottom": [ref]}}}}
+    if slot == "fixed_opposing":
+        # the array dimension itself sorted by an element of the opposing dimension
+        # (`all_alias_refs` carries that element's id), the item of interest pinned
+        return {key: {"order": {"type": "opposing_element", "element_id": all_alias_refs,
+                                "measure": opp_measure, "fixed": {"bottom": [ref]}}}}
+    if slot == "fixed_marginal":
+        return {key: {"order": {"type": "marginal", "marginal": "base", "direction": "ascending",
+                                "fixed": {"top": [ref]}}}}
     if slot == "opposing":
         return {okey: {"order": {"type": "opposing_element", "element_id": ref,
                                  "measure": opp_measure}}}
@@ -208,7 +217,7 @@ def check_case(case):
     is_rows = strand or d == nd - 2
     key = "rows_dimension" if is_rows else "columns_dimension"
     okey = "columns_dimension" if is_rows else "rows_dimension"
-    if slot in ("opposing", "derived_insertion") and strand:
+    if slot in ("opposing", "derived_insertion", "fixed_opposing", "fixed_marginal") and strand:
         res.skipped["slot_needs_two_dimensions"] += 1
         return res
     spell = _spellings(role, var)
@@ -221,11 +230,20 @@ def check_case(case):
             return res
         items = [j for j, it in enumerate(var.items) if it.get("derived")]
     measure = "count_weighted"
+    opp_ref = None
+    if slot == "fixed_opposing":
+        orole, ovar = lf[nd - 1 if is_rows else nd - 2]
+        if orole in ("cat", "ca_cats"):
+            ocats = [c for c in getattr(ovar, "axis_cats", None) or ovar.cats
+                     if not c.get("missing")]
+            opp_ref = ocats[-1]["id"] if ocats else 1
+        else:
+            opp_ref = ovar.items[-1]["alias"]
     plain, _ = _cube(spec, {})
     plain_parts = read(plain, "partitions")
     for j in items:
         ref_alias = spell[j]["alias"]
-        trA = _transform_for(slot, key, okey, ref_alias, None, measure)
+        trA = _transform_for(slot, key, okey, ref_alias, opp_ref, measure)
         cubeA, _ = _cube(spec, trA)
         pA = read(cubeA, "partitions")
         if not res.check("spelling_equivalence", pA.ok, "exception/alias_spelling/%s" % slot,
@@ -242,7 +260,7 @@ def check_case(case):
             if name == "alias":
                 continue
             res.classes.append("spelling=%s" % name)
-            trS = _transform_for(slot, key, okey, ref, None, measure)
+            trS = _transform_for(slot, key, okey, ref, opp_ref, measure)
             cubeS, _ = _cube(spec, trS)
             pS = read(cubeS, "partitions")
             if not res.check("spelling_equivalence", pS.ok,
@@ -328,9 +346,12 @@ def _with_stale(slot, key, okey, tr, stale):
     elif slot == "fixed_top":
         t[key]["order"]["fixed"]["top"] = [stale] + t[key]["order"]["fixed"]["top"]
         t[key]["order"]["fixed"]["bottom"] = [stale]
-    elif slot == "fixed_bottom":
+    elif slot in ("fixed_bottom", "fixed_opposing"):
         t[key]["order"]["fixed"]["bottom"] = t[key]["order"]["fixed"]["bottom"] + [stale]
         t[key]["order"]["fixed"]["top"] = [stale]
+    elif slot == "fixed_marginal":
+        t[key]["order"]["fixed"]["top"] = [stale] + t[key]["order"]["fixed"]["top"]
+        t[key]["order"]["fixed"]["bottom"] = [stale]
     return t
 
 
